@@ -618,7 +618,7 @@ func (r *run) runClone(subnet, wd string) {
 	}
 	snaps := []string{}
 	nsn := 1 + rng.Intn(3)
-	failVariant := os.Getenv("VERIF_CLONE_FAILRELOAD") != "" && r.sc.ID%3 == 2 // experimental, see DESIGN.md 9
+	failVariant := r.sc.ID%3 == 2
 	if failVariant && nsn < 2 {
 		nsn = 2 // the failing-reload variant needs a snapshot below S (chain limit >= 2 to start at all)
 	}
